@@ -169,7 +169,7 @@ def check(ctx):
                       "(drawn range and counted range differ)" % (lo, hi), c)
     cs = ctx.fn("random:UCSolutionEnumerator.__count_solutions")
     Fc = Facts(cs)
-    fact(ctx, R, cs, "crossings_shape", Fc.assigns("components_shape.crossings_shape"), ["ite(((1 == self.__complex_crossing_instances) and self._crossing_is_unweighted), ite((first_n != len(self._crossing_instances)*self.__complex_crossing_instances), (factorial(len(self._crossing_instances)*self.__complex_crossing_instances))//(factorial(-first_n + len(self._crossing_instances)*self.__complex_crossing_instances)), factorial(len(self._crossing_instances)*self.__complex_crossing_instances)), count_prefixes_of_permutations_with_copies(len(self._crossing_instances), self._m_or_counters, first_n, pmemo))"], "the permutation count is what crossings_shape holds")
+    fact(ctx, R, cs, "crossings_shape", Fc.assigns("components_shape.crossings_shape"), ["ite(((1 == self.__complex_crossing_instances) and self._crossing_is_unweighted), ite((first_n == len(self._crossing_instances)*self.__complex_crossing_instances), factorial(len(self._crossing_instances)*self.__complex_crossing_instances), (factorial(len(self._crossing_instances)*self.__complex_crossing_instances))//(factorial(-first_n + len(self._crossing_instances)*self.__complex_crossing_instances))), count_prefixes_of_permutations_with_copies(len(self._crossing_instances), self._m_or_counters, first_n, pmemo))"], "the permutation count is what crossings_shape holds")
     app = [e for e in Fc.exprs() if e.startswith("components_shape.")]
     ctx.check(app == ["components_shape.combinations_shapes.append(len(list(range(len(self._source_combinations)))))", "components_shape.independent_shapes.append(pow(len(%s), first_n))" % "list(filter(lambda l: not(self._block.is_excluded_combination({f: l})), f.levels))"]
               or (len(app) == 2 and app[0].startswith("components_shape.combinations_shapes.append(len(") and app[1].startswith("components_shape.independent_shapes.append(pow(len(")),
